@@ -47,6 +47,7 @@ structure SSt where
   wq : List SOp := []                                     -- the world command queue (exclusive systems queue here)
   ncalls : Nat := 0                                       -- harness: number of calls made (scenarios are capped)
   log : List SEv := []
+  oof : Bool := false                                      -- ghost: the executor ran out of fuel somewhere
 
 instance : Inhabited SSt := ⟨{}⟩
 
@@ -99,7 +100,7 @@ def runBody (k : SSt → Task → SSt × Option Nat) (p : SProg) (st : SSt) (kin
 /-- The executor: a call through an entry point, the application of one queued command, or a flush of the world queue.
     `none` = error (spawned only) or out of fuel. -/
 def exec (p : SProg) : Nat → SSt → Task → SSt × Option Nat
-  | 0, st, _ => (st, none)
+  | 0, st, _ => ({ st with oof := true }, none)
   | fuel + 1, st, .flush =>
     match st.wq with
     | [] => (st, none)
